@@ -44,12 +44,12 @@ Definition slice_start (i : Z) (len : Z) : Z :=
   else 0.
 Definition slice_end (j : Z) (len : Z) : Z :=
   if j <? 0 then Z.max 0 (len - (- j - 1)) else j.
-(* None = the "Bad indexes" error; skip(start).take(end - start) *)
-Definition str_slice (s : list N) (i j : Z) : option (list N) :=
+(* skip(start).take(end.saturating_sub(start)): an empty range gives the empty string *)
+Definition str_slice (s : list N) (i j : Z) : list N :=
   let len := Z.of_nat (length s) in
   let st := slice_start i len in
   let en := slice_end j len in
-  if st <=? en then Some (firstn (Z.to_nat (Z.min (en - st) len)) (skipn (Z.to_nat st) s)) else None.
+  firstn (Z.to_nat (Z.min (Z.max 0 (en - st)) len)) (skipn (Z.to_nat st) s).
 
 Definition str_upper (s : list N) : list N := map to_ascii_upper s.
 Definition str_lower (s : list N) : list N := map to_ascii_lower s.
